@@ -246,9 +246,12 @@ func c11rRun(p *vreport.Part, c c11rCase, dir string) {
 	oldAccepted := func() int {
 		w.mu.Lock()
 		defer w.mu.Unlock()
+		// only the listeners of THIS case: the read filter finds its world through a package variable, so a
+		// connection that the old MOSN of the previous case accepts late (its accept goroutine delayed on a
+		// loaded machine) is booked here too - under the previous case's listener address
 		n := 0
-		for _, v := range w.accepted {
-			n += v
+		for _, a := range addrs {
+			n += w.accepted[a]
 		}
 		return n
 	}
